@@ -23,7 +23,7 @@ def run(ctx):
     ok = ctx.audit(['Scalibr.Properties.C01'], THEOREMS)
     if ctx.tier == 'thorough':
         ok = ctx.leanchecker('Scalibr.Properties.C01') and ok
-    n = {'quick': 6000, 'thorough': 150000}[ctx.tier]
+    n = {'quick': 6000, 'thorough': 150000}[ctx.tier] * W.scale(ctx)
     W.run_stream(ctx, 'plain', n, W.oracle_calls)
     W.run_stream(ctx, 'mixed', n // 3, W.oracle_calls)
     if not ok:
